@@ -25,7 +25,6 @@ NOTES = {
     "C10-m2": "first missed: recursion family through `+:` super fields added",
     "C10-m4": "first missed: deep live heaps through the binary (same part as C03-m4)",
     "C11-m1": "first missed: requests failing with every error kind and calls given as source text (`callsrc`) added to the history pool; restored thunks in Trace_Machine",
-    "C11-m2": "first missed: pool objects with only asserts / only locals, extended after a first request",
     "C11-m3": "first missed: Session-level histories (front-end import resolution and caches, case kind `sess`) added",
     "C11-m4": "first missed: pool sources deriving several objects from one shared value through std.objectRemoveKey",
     "C12-m2": "first missed: `var=` (empty value) for every ext/tla flag added to the Cli universe",
@@ -48,6 +47,16 @@ NOTES = {
     "C11-m6": "first missed: a collection while only the request's value is held (`hold_gc`) and a call returning a fresh self-referential object",
     "C12-m6": "first missed: the same name as an external variable and as a top-level argument (kinds `tla_ext_same*`)",
     "C13-m5": "first missed: the command-line route of code files added to Imports.tla (family `codefile`)",
+    "C07-m2": "caught as built by one sampled program; after later universe changes the sample no longer contained it: the shared mode was split into single-bracketing variants (`sharedA`, `sharedB`) so that a fault of one bracketing cannot be masked by the other one failing the same way",
+    "C11-m2": "first missed: pool objects with only asserts / only locals, extended after a first request; later lost from the seeded sample of length-3 histories: histories that evaluate the parts and then combine them are now never sampled away",
+    "C06-m6": "caught by a single case (`f` x 256); digit strings exactly half-way between two doubles up to the 1024-bit boundary added (`RadixTie`)",
+    "C19-m6": "first missed: the value invariant for more than 53 bits had a tolerance of 2^-50; the numeral must now read back as the value, and the plain directives on extreme values are never sampled away",
+    "C16-m6": "two-label diagnostics whose first definition follows locals / asserts were added on reading the change, before the first try",
+    "C08-m5": "numbers at the edges of the double grid (whole numbers beyond 2^63, neighbours of 1 and 2^53) were added to Values on reading the change, before the first try",
+    "C08-m6": "see C08-m5",
+    "C09-m5": "object locals referring to later locals (contexts 41-44) were added on reading the change, before the first try",
+    "C20-m5": "characters whose low byte is a base64 character were added on reading the change, before the first try",
+    "C20-m6": "escaped surrogate pairs beyond plane 1 were added on reading the change, before the first try",
     "C20-m2": "first missed: digit strings with leading zeros longer than the accumulator width added",
 }
 
